@@ -136,6 +136,10 @@ def make_pool(cls_name, size=float("inf"), **kw):
     from . import verif_workers as vw
 
     cls = POOL_CLASSES[cls_name]
+    if cls_name == "SimpleTaskPool(partial)":
+        import functools
+
+        return SimpleTaskPool(functools.partial(vw.work, "frozen"), pool_size=size, **kw)
     if issubclass(cls, SimpleTaskPool):
         return cls(vw.work, pool_size=size, **kw)
     return cls(pool_size=size, **kw)
@@ -229,6 +233,8 @@ POOL_CLASSES = {
     "SimpleTaskPool": SimpleTaskPool,
     "ExtTaskPool": ExtTaskPool,
     "ExtSimpleTaskPool": ExtSimpleTaskPool,
+    # a SimpleTaskPool whose function (fixed at construction) is a functools.partial: a coroutine function without __name__
+    "SimpleTaskPool(partial)": SimpleTaskPool,
 }
 
 
